@@ -20,12 +20,11 @@ def finding_key(req, obs, detail):
     m = re.match(r"FAIL:panic ([^:]+):\d+: (.*)$", detail or "")
     if m:
         return f"panic {m.group(1)}: " + re.sub(r"\d+", "N", m.group(2))
-    m = re.search(r"bindings differ (\w+) vs (\w+): only \w+: \[\(\"([A-Za-z_0-9]+)\", \"(\w+)\"", detail or "")
+    # the harness tags a name difference that is wholly explained by a declared name being a reserved word of only one of
+    # the two target languages (decided from the RESERVED_NAMES tables of the source tree); anything else keeps its own key
+    m = re.match(r"FAIL:binding-name-reserved-in-one-target:(hlsl|msl|both): ", detail or "")
     if f[0] == "C18.cross" and m:
-        # the HLSL name map renames a global whose name is reserved in HLSL and reports the new name
-        renamed = re.match(r"([A-Za-z_][A-Za-z_0-9]*)_0$", m.group(3))
-        if renamed and f"reserved-{renamed.group(1)}" in f[2]:
-            return f"binding name {renamed.group(1)} reported as {m.group(3)} by the HLSL targets"
+        return f"binding-name-reserved-in-one-target:{m.group(1)}"
     return req
 
 
@@ -56,6 +55,7 @@ def search(ctx):
     define / test / expand one macro under every directive"""
     out = []
     variants = ["plain", "state", "pp-guard", "pp-macros", "pp-version", "unbounded", "reserved-matrix", "reserved-cb",
+                "reserved-kernel", "reserved-cb-main", "reserved-double", "entry-texture", "typedef-array",
                 "e-pp-if", "e-parse-mid", "e-type-undef-mid", "e-pipe-entry", "layout-trap", "include", "api-define"]
     for seed in range(1, 40):
         for v in variants:
@@ -80,7 +80,7 @@ SPEC = {
         "expand_fuel_irrelevant",
         "build_shape_as_modelled", "dx_vk_same_stage_reports", "all_targets_same_stage_kinds_sizes",
         "dx_vk_declarations_differ_only_in_annotations_partial", "dx_register_vk_binding",
-        "descriptor_tables_equal", "kind_count_from_declaration", "binding_kinds_counts_shared",
+        "descriptor_tables_equal", "kind_count_from_declaration", "binding_kinds_counts_shared", "dx_vk_bindings_shared",
         "binding_names_kinds_counts_shared_partial", "binding_names_not_shared"]],
     "harness": "c18",
     "nontrivial": nontrivial,
@@ -88,7 +88,7 @@ SPEC = {
     "shrink": shrink,
     "search": search,
     "rule": "generated shader files (progen: up to 7 resources of 18 kinds incl. arrays, static samplers, bindless, bind groups; "
-            "helper call graphs; 1-4 pipelines compute / vertex+pixel / mesh+pixel / task+mesh) in 42 variants (accepted: plain, "
+            "helper call graphs; 1-4 pipelines compute / vertex+pixel / mesh+pixel / task+mesh) in 50 variants (accepted: plain, "
             "explicit pipeline state, include guards, object-like macros, #if __HLSL_VERSION, dead garbage in #if 0, unbounded "
             "array, resources named like HLSL/MSL reserved words, declarations in an included file, API-level defines, a struct "
             "whose layouts differ between HLSL and Metal; rejected: 20 injected lexer / preprocessor / parser / type / "
@@ -110,9 +110,11 @@ SPEC = {
                   "reflection (static samplers and buffer addresses aside) is proved equal for any declaration list and any two "
                   "parameter sets. Partial: that the HLSL output for dx and vk differs only in annotations is proved "
                   "for a thin model of the extern global / cbuffer declarations only (the harness compares the real sources "
-                  "token for token after erasing `: register(..)` and `[[vk::..]]`); binding *names* are shared only when the "
-                  "HLSL name map keeps them - the full statement is false on the current code and its negation is proved with "
-                  "a witness (`binding_names_not_shared`, replayed as a known finding). Not modelled: function-like macros / ## / "
+                  "token for token after erasing `: register(..)` and `[[vk::..]]`); binding *names* are shared only when every "
+                  "declared name is reserved in neither or in both target languages (each exporter reports its emitted name) - "
+                  "the full statement is false on the current code and its negation is proved with three witnesses "
+                  "(`binding_names_not_shared`, replayed as the known-finding class binding-name-reserved-in-one-target); "
+                  "DirectX and Vulkan agree on names unconditionally (`dx_vk_bindings_shared`). Not modelled: function-like macros / ## / "
                   "#include (C12's model; exercised by the harness variants include / pp-macros / ctl-concat).",
     "trusted_base": [
         "Lean 4.33 kernel; axioms propext / Classical.choice / Quot.sound only",
